@@ -75,6 +75,8 @@ type Outcome struct {
 	LateReleases int `json:"late_releases,omitempty"`
 	// RepollRecords counts records produced by Next after it had returned false.
 	RepollRecords int `json:"repoll_records,omitempty"`
+	// WarmupOpens counts the ContainerLogs calls of the warm-up evaluations (Variant.Warmup).
+	WarmupOpens int `json:"warmup_opens,omitempty"`
 }
 
 // Bad reports whether the execution ended abnormally (panic or hang).
@@ -302,6 +304,11 @@ func bubble(p *Plan, world *World, v *Variant, opts ExecOpts, out *Outcome) {
 	out.Lists = d.Lists
 	d.mu.Unlock()
 	out.Opens = d.OpenCalls()
+	for _, oc := range out.Opens {
+		if oc.Phase >= 100 {
+			out.WarmupOpens++
+		}
+	}
 	d.mu.Lock()
 	for _, s := range d.Streams {
 		out.Streams = append(out.Streams, s.Info)
@@ -485,6 +492,24 @@ func runEngine(d *Daemon, p *Plan) (res evalResult) {
 	ctx, cancel := context.WithCancel(context.Background())
 	defer cancel()
 	d.CancelFn = cancel
+	if v := d.variant; v != nil && v.Warmup > 0 {
+		// The same long-lived Engine and Querier answer earlier evaluations first.
+		// Their answers are discarded; the evaluation that is judged follows.
+		wq := v.WarmupQuery
+		if wq == "" {
+			wq = p.Query
+		}
+		d.SetPhase(100)
+		for i := 0; i < v.Warmup; i++ {
+			_, _ = eng.Eval(ctx, wq, logqlengine.EvalParams{
+				Start: otelstorage.Timestamp(p.Params.Start),
+				End:   otelstorage.Timestamp(p.Params.End),
+				Step:  time.Duration(p.Params.StepNs),
+				Limit: p.Params.Limit,
+			})
+		}
+		d.SetPhase(0)
+	}
 	res.data, res.err = eng.Eval(ctx, p.Query, logqlengine.EvalParams{
 		Start: otelstorage.Timestamp(p.Params.Start),
 		End:   otelstorage.Timestamp(p.Params.End),
